@@ -16,9 +16,22 @@ par ht <ops> <queries> <tree…>                histories over several trees
     -> one item per op, joined by `|`: c | u | ERR (refused call) | <stage>
     in `ht` lines <child> is a child name of a node or <i>.<field> of a scale
     (field = threshold | rate | amount | average_rate)
+par y <root> <updates> <queries> <data…>      an object built from YAML-like data by `helpers._parse_child(root, data, …)`
+    root = - | <name>       data = ~ (null) | b:T | b:F | v:<number> | s:<text> | L<n> <data>×n | M<n> (<key> <data>)×n
+    key  = d<ord>~<text> | m<ord>~<text> | y<ord>~<text>   a text matching INSTANT_PATTERN (full / YYYY-MM / YYYY; ord of its first day)
+         | k:<text> (any other text) | i:<int> (an integer key)
+    -> ERR (the construction raised) | UNSUP (a bracket field that is not a numeric parameter)
+     | P|<stage>|…           a Parameter: values_list (short keys print as <ord>m / <ord>y) @ reads, one stage per update
+     | T|<snap>;…|D:<name>,… anything else: one snapshot per query day (a node lists after its members the declared
+                             children it does not expose, `!(<child>><name the error carries>,…)`), then the names of
+                             `get_descendants()`
+par d <root> <queries> <dir…>                 a ParameterNode built by `ParameterNode(root, directory_path=…)`
+    dir = D<n> <entry>×n (listing order)   entry = F:<file name> <data> | S:<directory name> <dir>
+    -> ERR | UNSUP | T|<snap>;…|D:<name>,…   as for `par y`
 entries  = - | <ord>:<val>,…            in declaration order; val = <token> | null | expected
 updates  = - | <upd>;…                  upd = [<child>:]<form>:<a>:<b|->:<val|null>
            form = period | range | open (accepted) | both | pstop | nostart (refused by the code)
+                | add (with a child name: `node.add_child(child, Parameter(…, {a: val}))`, b = -)
 queries  = <lo>..<hi> | <ord> , …
 tree     = P <entries> | S <0|1> <n> (<thr> <rate> <amount> <avg>)×n | N <n> (<name> <tree>)×n
 snap     = none | <token> | <kind>[<t>:<x>,…] | {<name>=<snap>,…}
@@ -74,6 +87,7 @@ structure Call where
   start  : Option Int
   stop   : Option Int
   v      : Option String
+  add    : Bool                 -- not an update: `node.add_child(child, Parameter(…, {start: v}))`
 
 def parseCall? (withChild : Bool) (s : String) : Option Call := do
   let fs := s.splitOn ":"
@@ -86,12 +100,13 @@ def parseCall? (withChild : Bool) (s : String) : Option Call := do
     let b ← (if b = "-" then some none else b.toInt?.map some)
     let v ← (if v = "null" then some none else if v = "" then none else some (some v))
     match form, b with
-    | "period", some b => pure ⟨child, some (a, b), none, none, v⟩
-    | "range", some b => pure ⟨child, none, some a, some b, v⟩
-    | "open", none => pure ⟨child, none, some a, none, v⟩
-    | "both", some b => pure ⟨child, some (a, b), some a, none, v⟩
-    | "pstop", some b => pure ⟨child, some (a, b), none, some b, v⟩
-    | "nostart", b => pure ⟨child, none, none, b, v⟩
+    | "period", some b => pure ⟨child, some (a, b), none, none, v, false⟩
+    | "range", some b => pure ⟨child, none, some a, some b, v, false⟩
+    | "open", none => pure ⟨child, none, some a, none, v, false⟩
+    | "both", some b => pure ⟨child, some (a, b), some a, none, v, false⟩
+    | "pstop", some b => pure ⟨child, some (a, b), none, some b, v, false⟩
+    | "nostart", b => pure ⟨child, none, none, b, v, false⟩
+    | "add", none => if withChild then pure ⟨child, none, some a, none, v, true⟩ else none
     | _, _ => none
   | _ => none
 
@@ -193,12 +208,19 @@ def stageT (t : PNode String) (qs : List Int) : String :=
 def updTree (t : PNode String) (c : Call) : Option (Except String (PNode String)) :=
   match t, c.child with
   | .node cs, some name =>
+    if c.add then
+      match c.start with
+      | some a => some ((addChild cs name (.param [⟨a, c.v⟩])).map .node)
+      | none => none
+    else
     match cs.lookup name with
     | some (.param l) =>
       match updateCall l c.period c.start c.stop c.v with
       | .ok l' => some (.ok (.node (cs.map fun (k, x) => if k = name then (k, .param l') else (k, x))))
       | .error e => some (.error e)
-    | _ => none
+    | some (.scale _ _) => none
+    | some (.node _) => none
+    | none => some (.error "no such child")       -- `node.children[name]` / `node.name` raises
   | _, _ => none
 
 /-- `scale.brackets[i].children[field].update(…)` -/
@@ -220,6 +242,7 @@ def updAny (t : PNode String) (c : Call) : Option (Except String (PNode String))
   match t, c.child with
   | .node _, some _ => updTree t c
   | .scale m bs, some addr =>
+    if c.add then none else
     match addr.splitOn "." with
     | [i, field] => do
       let i ← i.toNat?
@@ -228,6 +251,7 @@ def updAny (t : PNode String) (c : Call) : Option (Except String (PNode String))
       pure (r.map fun b' => .scale m (bs.set i b'))
     | _ => none
   | .param l, some "-" =>
+    if c.add then none else
     some ((updateCall l c.period c.start c.stop c.v).map .param)
   | _, _ => none
 
@@ -285,6 +309,187 @@ def runT (t : PNode String) (calls : List Call) (qs : List Int) : Option (List S
     | some (.ok t') => (runT t' rest qs).map (stageT t' qs :: ·)
     | some (.error _) => (runT t rest qs).map ("ERR" :: ·)
 
+/-! ### `par y`: construction from YAML-like data -/
+
+def allDigits (cs : List Char) : Bool := cs.all Char.isDigit
+
+def parseYKey? (tok : String) : Option YKey :=
+  if tok.startsWith "k:" then
+    let t := (tok.drop 2).toString
+    if t = "" then none
+    else if t.length ≥ 4 && allDigits (t.toList.take 4) then none      -- would match (or resemble) INSTANT_PATTERN
+    else some (.name t)
+  else if tok.startsWith "i:" then (tok.drop 2).toString.toInt?.map .int
+  else
+    match tok.splitOn "~" with
+    | [k, text] =>
+      if text = "" then none else
+      match k.toList with
+      | 'd' :: r => (String.ofList r).toInt?.map fun o => .date o .day text
+      | 'm' :: r => (String.ofList r).toInt?.map fun o => .date o .month text
+      | 'y' :: r => (String.ofList r).toInt?.map fun o => .date o .year text
+      | _ => none
+    | _ => none
+
+def isScalarY : Y → Bool
+  | .null => true | .bool _ => true | .num _ => true
+  | .str _ => false | .list _ => false | .map _ => false
+
+def isMapY : Y → Bool
+  | .map _ => true
+  | .null => false | .bool _ => false | .num _ => false | .str _ => false | .list _ => false
+
+def keysDistinct : List String → Bool
+  | [] => true
+  | k :: r => !r.contains k && keysDistinct r
+
+/-- the fragment of data both sides agree to talk about: keys distinct as texts (the YAML loader
+    refuses `2:` beside `"2":`); a list is a list of mappings or of
+    numbers / booleans / nulls; `metadata` is neither a list nor the empty text -/
+def okMap (kvs : List (YKey × Y)) : Bool :=
+  keysDistinct (kvs.map (·.1.text)) &&
+  (match lookupName kvs "metadata" with
+   | some (.list _) => false
+   | some (.str t) => t != ""
+   | _ => true)
+
+partial def parseY? : List String → Option (Y × List String)
+  | [] => none
+  | tok :: rest =>
+    if tok = "~" then some (.null, rest)
+    else if tok = "b:T" then some (.bool true, rest)
+    else if tok = "b:F" then some (.bool false, rest)
+    else if tok.startsWith "v:" then
+      let t := (tok.drop 2).toString
+      match parseRat? t with
+      | some r => if showRat r = t then some (.num t, rest) else none
+      | none => none
+    else if tok.startsWith "s:" then some (.str (tok.drop 2).toString, rest)
+    else match tok.toList with
+      | 'L' :: n => do
+        let n ← (String.ofList n).toNat?
+        let rec items : Nat → List String → Option (List Y × List String)
+          | 0, toks => some ([], toks)
+          | k + 1, toks => do
+            let (y, toks) ← parseY? toks
+            let (ys, toks) ← items k toks
+            pure (y :: ys, toks)
+        let (ys, rest) ← items n rest
+        if ys.all isMapY || ys.all isScalarY then pure (.list ys, rest) else none
+      | 'M' :: n => do
+        let n ← (String.ofList n).toNat?
+        let rec pairs : Nat → List String → Option (List (YKey × Y) × List String)
+          | 0, toks => some ([], toks)
+          | k + 1, key :: toks => do
+            let key ← parseYKey? key
+            let (y, toks) ← parseY? toks
+            let (ps, toks) ← pairs k toks
+            pure ((key, y) :: ps, toks)
+          | _, [] => none
+        let (kvs, rest) ← pairs n rest
+        if okMap kvs then pure (.map kvs, rest) else none
+      | _ => none
+
+/-- values_list in ticks: `<ord>`, `<ord>m`, `<ord>y` -/
+def showFineEntries (l : List (Entry String)) : String :=
+  ",".intercalate (l.map fun e =>
+    let o := (e.date + 2) / 3
+    let r := e.date - 3 * o
+    let suffix := if r = 0 then "" else if r = -1 then "m" else "y"
+    s!"{o}{suffix}={match e.val with | some v => v | none => "null"}")
+
+def stagePF (l : List (Entry String)) (qs : List Int) : String :=
+  showFineEntries l ++ "@" ++ ",".intercalate (qs.map fun d => showVal (pget l (3 * d)))
+
+def runPF (l : List (Entry String)) (calls : List Call) (qs : List Int) : List String :=
+  match calls with
+  | [] => []
+  | c :: rest =>
+    match updateCallFine l c.period c.start c.stop c.v with
+    | .ok l' => stagePF l' qs :: runPF l' rest qs
+    | .error _ => "ERR" :: runPF l rest qs
+
+/-- a node at tick `d`: its members, then the declared children it does not expose with the name the
+    error carries -/
+partial def showNodeAt (name : String) (cs : List (String × PNode String)) (d : Int) : String :=
+  let mem := cs.filterMap fun (k, c) =>
+    match c with
+    | .param l => (pget l d).map (fun v => k ++ "=" ++ v)
+    | .scale m bs => some (k ++ "=" ++ showScale (scaleAt m bs d))
+    | .node cs' => some (k ++ "=" ++ showNodeAt (composeChild name k) cs' d)
+  let ab := absentAt name cs d
+  "{" ++ ",".intercalate mem ++ "}" ++
+    (if ab.isEmpty then "" else "!(" ++ ",".intercalate (ab.map fun (k, n) => k ++ ">" ++ n) ++ ")")
+
+def showTopAt (name : String) (t : PNode String) (d : Int) : String :=
+  match t with
+  | .param l => showVal (pget l d)
+  | .scale m bs => showScale (scaleAt m bs d)
+  | .node cs => showNodeAt name cs d
+
+def handleParY (root us qs : String) (toks : List String) : String :=
+  match parseCalls? false us, parseQueries? qs, parseY? toks with
+  | some calls, some qs, some (y, []) =>
+    let name := if root = "-" then "" else root
+    match parseChild parseRat? y with
+    | .error e => if e = "UNSUP" then "UNSUP" else "ERR"
+    | .ok (.param l) => "|".intercalate ("P" :: stagePF l qs :: runPF l calls qs)
+    | .ok t =>
+      if !calls.isEmpty then "BAD" else
+      "T|" ++ ";".intercalate (qs.map fun d => showTopAt name t (3 * d)) ++ "|D:" ++ ",".intercalate (t.descNames name)
+  | _, _, _ => "BAD"
+
+/-! ### `par d`: construction from a directory -/
+
+/-- `os.path.splitext` for a name that does not start with a dot -/
+def splitExt (name : String) : String × String :=
+  let cs := name.toList
+  match (cs.reverse.takeWhile (· != '.')).length with
+  | n => if n = cs.length then (name, "") else (String.ofList (cs.take (cs.length - n - 1)), String.ofList (cs.drop (cs.length - n - 1)))
+
+def entName : DirEnt → String
+  | .file stem ext _ => stem ++ ext
+  | .dir name _ => name
+
+partial def parseDir? : List String → Option (List DirEnt × List String)
+  | [] => none
+  | tok :: rest =>
+    match tok.toList with
+    | 'D' :: n => do
+      let n ← (String.ofList n).toNat?
+      let rec ents : Nat → List String → Option (List DirEnt × List String)
+        | 0, toks => some ([], toks)
+        | _ + 1, [] => none
+        | k + 1, e :: toks =>
+          if e.startsWith "F:" then do
+            let name := (e.drop 2).toString
+            if name = "" || name.startsWith "." then none else
+            let (y, toks) ← parseY? toks
+            let (es, toks) ← ents k toks
+            let (stem, ext) := splitExt name
+            pure (.file stem ext y :: es, toks)
+          else if e.startsWith "S:" then do
+            let name := (e.drop 2).toString
+            if name = "" || name.startsWith "." then none else
+            let (sub, toks) ← parseDir? toks
+            let (es, toks) ← ents k toks
+            pure (.dir name sub :: es, toks)
+          else none
+      let (es, rest) ← ents n rest
+      if keysDistinct (es.map entName) then pure (es, rest) else none
+    | _ => none
+
+def handleParD (root qs : String) (toks : List String) : String :=
+  match parseQueries? qs, parseDir? toks with
+  | some qs, some (es, []) =>
+    let name := if root = "-" then "" else root
+    match buildDir parseRat? es [] with
+    | .error e => if e = "UNSUP" then "UNSUP" else "ERR"
+    | .ok cs =>
+      let t : PNode String := .node cs
+      "T|" ++ ";".intercalate (qs.map fun d => showTopAt name t (3 * d)) ++ "|D:" ++ ",".intercalate (t.descNames name)
+  | _, _ => "BAD"
+
 def handlePar (args : List String) : String :=
   match args with
   | ["p", es, us, qs] =>
@@ -303,6 +508,8 @@ def handlePar (args : List String) : String :=
         | some stages => "|".intercalate (stageT t qs :: stages)
         | none => "BAD"
     | _, _, _ => "BAD"
+  | "y" :: root :: us :: qs :: toks => handleParY root us qs toks
+  | "d" :: root :: qs :: toks => handleParD root qs toks
   | ["h", es, ops, qs] =>
     match parseItems? es, parseOps? false ops, parseQueries? qs with
     | some its, some ops, some qs =>
